@@ -52,12 +52,12 @@ theorem lz_pad (t : List Bool) (m : Nat) :
 
 /-! ### chunks -/
 
-theorem chunks_length (k : Nat) (bs : List Bool) : (chunks k bs).length = k := by
+theorem wchunks_length (k : Nat) (bs : List Bool) : (chunks k bs).length = k := by
   induction k generalizing bs with
   | zero => rfl
   | succ k ih => simp [chunks, ih]
 
-theorem chunks_drop (k j : Nat) (bs : List Bool) :
+theorem wchunks_drop (k j : Nat) (bs : List Bool) :
     (chunks k bs).drop j = chunks (k - j) (bs.drop (64 * j)) := by
   induction j generalizing k bs with
   | zero => simp
@@ -71,7 +71,7 @@ theorem chunks_drop (k j : Nat) (bs : List Bool) :
       · omega
       · congr 1; omega
 
-theorem chunks_flatten (k : Nat) (bs : List Bool) : (chunks k bs).flatten = bs.take (64 * k) := by
+theorem wchunks_flatten (k : Nat) (bs : List Bool) : (chunks k bs).flatten = bs.take (64 * k) := by
   induction k generalizing bs with
   | zero => simp [chunks]
   | succ k ih =>
@@ -79,15 +79,15 @@ theorem chunks_flatten (k : Nat) (bs : List Bool) : (chunks k bs).flatten = bs.t
     have : 64 * (k + 1) = 64 + 64 * k := by omega
     rw [this, List.take_add]
 
-theorem chunks_getD (k j : Nat) (bs : List Bool) (hj : j < k) :
+theorem wchunks_getD (k j : Nat) (bs : List Bool) (hj : j < k) :
     (chunks k bs).getD j zeroWord = (bs.drop (64 * j)).take 64 := by
   have h1 : (chunks k bs).getD j zeroWord = ((chunks k bs).drop j).headD zeroWord := by
     simp [List.getD_eq_getElem?_getD, List.headD_eq_head?_getD, List.head?_drop]
-  rw [h1, chunks_drop]
+  rw [h1, wchunks_drop]
   obtain ⟨m, hm⟩ : ∃ m, k - j = m + 1 := ⟨k - j - 1, by omega⟩
   rw [hm]; simp [chunks]
 
-theorem scanWords_chunks (k : Nat) (ys : List Bool) (d : Nat) (hlen : ys.length = 64 * k) :
+theorem scanWords_wchunks (k : Nat) (ys : List Bool) (d : Nat) (hlen : ys.length = 64 * k) :
     scanWords (chunks k ys) d =
       if ys.any id then Scan.found (d + leadingZeros ys) else Scan.ended (d + 64 * k) := by
   induction k generalizing ys d with
@@ -164,9 +164,9 @@ theorem distNextGo_eq' (bs : List Bool) (extra p : Nat) (hp0 : 1 ≤ p) (h : p <
   have hTlen : (bs.drop p).length = n - p := by simp [List.length_drop, hn]
   -- the word that holds pos+1, shifted
   have hget : (toWords bs extra).getD (p / 64) zeroWord = (B.drop (64 * (p / 64))).take 64 := by
-    rw [hwords, List.getD_eq_getElem?_getD, List.getElem?_append_left (by rw [chunks_length]; exact hwo),
+    rw [hwords, List.getD_eq_getElem?_getD, List.getElem?_append_left (by rw [wchunks_length]; exact hwo),
       ← List.getD_eq_getElem?_getD]
-    exact chunks_getD k _ B hwo
+    exact wchunks_getD k _ B hwo
   have hshr : shr ((B.drop (64 * (p / 64))).take 64) (p % 64) = X ++ List.replicate (p % 64) false := by
     have hl : ((B.drop (64 * (p / 64))).take 64).length = 64 := by
       simp only [List.length_take, List.length_drop, hBlen]; omega
@@ -176,10 +176,10 @@ theorem distNextGo_eq' (bs : List Bool) (extra p : Nat) (hp0 : 1 ≤ p) (h : p <
     have e2 : min (p % 64) 64 = p % 64 := by omega
     rw [e, e2]
   have hlen : (toWords bs extra).length = k + extra := by
-    rw [hwords]; simp [chunks_length]
+    rw [hwords]; simp [wchunks_length]
   have htake : (toWords bs extra).take k = chunks k B := by
-    rw [hwords, List.take_append_of_le_length (by rw [chunks_length]; omega)]
-    rw [List.take_of_length_le (by rw [chunks_length]; omega)]
+    rw [hwords, List.take_append_of_le_length (by rw [wchunks_length]; omega)]
+    rw [List.take_of_length_le (by rw [wchunks_length]; omega)]
   unfold distNextGo
   simp only [hpe]
   rw [if_neg (by rw [hlen]; omega), hget, hshr, hkdef]
@@ -204,8 +204,8 @@ theorem distNextGo_eq' (bs : List Bool) (extra p : Nat) (hp0 : 1 ≤ p) (h : p <
       rw [lz_of_not_any _ h3, hTlen]; omega
     · rw [if_neg hlast]
       have hwk : p / 64 ≠ k - 1 := by simpa using hlast
-      rw [htake, chunks_drop]
-      have hsc := scanWords_chunks (k - (p / 64 + 1)) Y (1 + (64 - p % 64)) hYlen
+      rw [htake, wchunks_drop]
+      have hsc := scanWords_wchunks (k - (p / 64 + 1)) Y (1 + (64 - p % 64)) hYlen
       rw [show B.drop (64 * (p / 64 + 1)) = Y from rfl, hsc]
       by_cases hY : Y.any id = true
       · rw [if_pos hY]
@@ -241,7 +241,7 @@ theorem popcount_shl (x : Word) (s : Nat) (hx : x.length = 64) (hs : s < 64) :
   unfold shl
   rw [popcount_append, popcount_replicate_false, hx]; simp
 
-theorem sum_popcount_chunks (j : Nat) (ys : List Bool) :
+theorem sum_popcount_wchunks (j : Nat) (ys : List Bool) :
     ((chunks j ys).map popcount).sum = popcount (ys.take (64 * j)) := by
   induction j generalizing ys with
   | zero => simp [chunks, popcount]
@@ -250,7 +250,7 @@ theorem sum_popcount_chunks (j : Nat) (ys : List Bool) :
     have e : 64 * (j + 1) = 64 + 64 * j := by omega
     rw [e, List.take_add, popcount_append]
 
-theorem chunks_take (m j : Nat) (ys : List Bool) (h : j ≤ m) : (chunks m ys).take j = chunks j ys := by
+theorem wchunks_take (m j : Nat) (ys : List Bool) (h : j ≤ m) : (chunks m ys).take j = chunks j ys := by
   induction j generalizing m ys with
   | zero => simp [chunks]
   | succ j ih =>
@@ -275,17 +275,17 @@ theorem popcountBlockGo_eq (bs : List Bool) (extra off nbits : Nat) (h1 : 1 ≤ 
   simp only [hnb]
   -- the full words
   have hfull : ((toWords bs extra).drop off).take ((nbits - 1) / 64) = chunks ((nbits - 1) / 64) (B.drop (64 * off)) := by
-    rw [hwords, List.drop_append_of_le_length (by rw [chunks_length]; omega), chunks_drop,
-      List.take_append_of_le_length (by rw [chunks_length]; omega), chunks_take _ _ _ (by omega)]
+    rw [hwords, List.drop_append_of_le_length (by rw [wchunks_length]; omega), wchunks_drop,
+      List.take_append_of_le_length (by rw [wchunks_length]; omega), wchunks_take _ _ _ (by omega)]
   -- the last word
   have hget : (toWords bs extra).getD (off + (nbits - 1) / 64) zeroWord
       = (B.drop (64 * (off + (nbits - 1) / 64))).take 64 := by
-    rw [hwords, List.getD_eq_getElem?_getD, List.getElem?_append_left (by rw [chunks_length]; exact hj),
+    rw [hwords, List.getD_eq_getElem?_getD, List.getElem?_append_left (by rw [wchunks_length]; exact hj),
       ← List.getD_eq_getElem?_getD]
-    exact chunks_getD k _ B hj
+    exact wchunks_getD k _ B hj
   have hl : ((B.drop (64 * (off + (nbits - 1) / 64))).take 64).length = 64 := by
     simp only [List.length_take, List.length_drop, hBlen]; omega
-  rw [hfull, hget, sum_popcount_chunks, popcount_shl _ _ hl (by omega), List.take_take]
+  rw [hfull, hget, sum_popcount_wchunks, popcount_shl _ _ hl (by omega), List.take_take]
   have e1 : min (64 - (64 - 1 - (nbits - 1) % 64)) 64 = (nbits - 1) % 64 + 1 := by omega
   have e2 : nbits = 64 * ((nbits - 1) / 64) + ((nbits - 1) % 64 + 1) := by omega
   have hB : (bs.drop (64 * off)).take nbits = (B.drop (64 * off)).take nbits := by
